@@ -78,6 +78,55 @@ Proof.
   reflexivity.
 Qed.
 
+(* ---- the same for the client's side: the ClientHello ---- *)
+Lemma client_hello_streams q msg : qt_server (fst (handle_client_hello q msg)) = qt_server q /\ qt_client (fst (handle_client_hello q msg)) = qt_client q.
+Proof.
+  unfold handle_client_hello. destruct (len msg <? 38); [split; reflexivity|].
+  match goal with |- context [if ?c then _ else _] => destruct c end; [split; reflexivity|]. cbv zeta.
+  match goal with |- context [match index ?r 34 with _ => _ end] => destruct (index r 34) as [sl|] end; [|split; reflexivity].
+  match goal with |- context [match index ?r ?i with _ => _ end] => destruct (index r i) as [cml|] end; [|split; reflexivity].
+  cbn [fst mark_new qt_server qt_client].
+  match goal with |- context [get_extensions ?q1 ?r] => destruct (get_extensions_streams q1 r) as (K1 & K2) end. rewrite K1, K2. split; reflexivity.
+Qed.
+
+Lemma update_session_first_client q msg i : qt_client q = [cs0; cs0; cs0; cs0] ->
+  update_session q false QInitial {| cf_offset := 0; cf_length := len msg; cf_data := msg; cf_id := i |} =
+  handle_buffer_from 0 4 (set_streams q false [ {| cs_offset := len msg; cs_frames := []; cs_buffer := msg |}; cs0; cs0; cs0 ]) false.
+Proof.
+  intros H. unfold update_session, get_streams. rewrite H. cbn [slot nth cs0 cs_frames cs_offset cs_buffer insert_cf drain cf_offset cf_length cf_data cf_id].
+  change (0 =? 0) with true. cbv iota. cbn [remove_id cf_id]. rewrite Z.eqb_refl. cbn [set_nth app Z.add]. reflexivity.
+Qed.
+
+Lemma walk_one_message_client q msg body l3 : msg = [1] ++ l3 ++ body -> len l3 = 3 -> from_be l3 = len body -> 0 < len body -> qt_client q = [cs0; cs0; cs0; cs0] ->
+  forall q1, handle_client_hello (set_streams q false [ {| cs_offset := len msg; cs_frames := []; cs_buffer := msg |}; cs0; cs0; cs0 ]) msg = (q1, true) ->
+  handle_buffer_from 0 4 (set_streams q false [ {| cs_offset := len msg; cs_frames := []; cs_buffer := msg |}; cs0; cs0; cs0 ]) false =
+  (set_streams q1 false [ {| cs_offset := len msg; cs_frames := []; cs_buffer := [] |}; cs0; cs0; cs0 ], true).
+Proof.
+  intros Em L3 Hl3 Hb0 Hstr q1 Hh.
+  assert (Lm : len msg = 4 + len body) by (rewrite Em, !len_app, L3; change (len [1]) with 1; lia).
+  assert (Hsl : slice msg 1 4 = l3). { rewrite Em. apply (slice_at [1] l3 body 1 3 eq_refl L3). }
+  assert (Hwhole : slice msg 0 (4 + len body) = msg) by (rewrite <- (app_nil_r msg) at 1; apply slice_at0; exact Lm).
+  assert (Hrest : slice_from msg (4 + len body) = []) by (rewrite <- (app_nil_r msg) at 1; apply (slice_from_at msg [] _ Lm)).
+  assert (Hn0 : nth 0 msg 0 = 1) by (rewrite Em; reflexivity).
+  set (q0 := set_streams q false [ {| cs_offset := len msg; cs_frames := []; cs_buffer := msg |}; cs0; cs0; cs0 ]) in *.
+  destruct (client_hello_streams q0 msg) as [_ St1]. rewrite Hh in St1. cbn [fst] in St1.
+  assert (Sq0 : qt_client q0 = [ {| cs_offset := len msg; cs_frames := []; cs_buffer := msg |}; cs0; cs0; cs0 ]) by reflexivity.
+  rewrite Sq0 in St1.
+  assert (Hc : consume (S (length msg)) q0 msg = (q1, [], true)).
+  { cbn [consume]. replace (len msg <=? 4) with false by (symmetry; apply Z.leb_gt; lia). rewrite Hsl, Hl3.
+    replace (len msg <? 4 + len body) with false by (symmetry; apply Z.ltb_ge; lia). rewrite Hwhole, Hrest, Hn0.
+    unfold handle_record. change (1 =? 1) with true. cbv iota. rewrite Hh. apply consume_empty. }
+  rewrite hbf_step. cbv zeta. unfold get_streams. rewrite Sq0. cbn [nth cs_buffer]. rewrite Hc.
+  rewrite St1. cbn [nth set_nth cs_offset cs_frames].
+  set (qa := set_streams q1 false _).
+  assert (Sa : qt_client qa = [ {| cs_offset := len msg; cs_frames := []; cs_buffer := [] |}; cs0; cs0; cs0 ]) by reflexivity.
+  assert (Eq1 : set_streams qa false [ {| cs_offset := len msg; cs_frames := []; cs_buffer := [] |}; cs0; cs0; cs0 ] = qa) by reflexivity.
+  do 3 (rewrite hbf_step; cbv zeta; unfold get_streams; rewrite Sa; cbn [nth cs_buffer length cs0]; rewrite consume_empty;
+        rewrite Sa; cbn [nth set_nth cs0 cs_offset cs_frames];
+        change {| cs_offset := 0; cs_frames := []; cs_buffer := [] |} with cs0; rewrite Eq1).
+  reflexivity.
+Qed.
+
 Section Front.
 Variable C : Crypto.
 Variable keylog : list secret.
@@ -126,4 +175,61 @@ Proof.
   rewrite Q1, Q3, Q4, Q5, Q6, Q7, Q8, Q12, Q13, Q11, Q15, Q16. rewrite F2, F3.
   repeat split; reflexivity.
 Qed.
+
+(* the CRYPTO frame with the ClientHello (a whole message at offset 0 of the client's empty Initial-level stream): the session learns
+   the client random and the first offered suite; when that suite is none of the four QUIC suites (a GREASE value first, as browsers
+   send it) no keys are touched and the frame's data is kept as CRYPTO data; the server's streams are untouched, so that
+   server_hello_frame applies to the ServerHello that follows *)
+Theorem client_hello_frame s pk (l3 hv random sid f others cms rest : bytes) :
+  qp_isserver pk = false -> qp_type pk = QInitial -> qt_client (qs_tls s) = [cs0; cs0; cs0; cs0] ->
+  len l3 = 3 -> from_be l3 = len (hv ++ random ++ [len sid] ++ sid ++ to_be_total (len (f ++ others)) 2 ++ (f ++ others) ++ [len cms] ++ cms ++ rest) ->
+  len hv = 2 -> len random = 32 -> len sid < 256 -> len f = 2 -> len (f ++ others) < 65536 -> len cms < 256 ->
+  bytes_ok f -> suite_choice f = None ->
+  let msg := [1] ++ l3 ++ hv ++ random ++ [len sid] ++ sid ++ to_be_total (len (f ++ others)) 2 ++ (f ++ others) ++ [len cms] ++ cms ++ rest in
+  exists s', handle_crypto_frame C keylog s pk 0 (len msg) msg = (s', true) /\
+    qt_client_random (qs_tls s') = Some random /\ qt_ciphersuite (qs_tls s') = Some f /\ qt_new_data (qs_tls s') = false /\
+    qt_server (qs_tls s') = qt_server (qs_tls s) /\
+    qs_output s' = qs_output s ++ [ {| of_kind := OCrypto; of_data := msg; of_ts := qp_ts pk; of_isserver := false |} ] /\
+    qs_handshake s' = qs_handshake s /\ qs_app s' = qs_app s /\ qs_hp s' = qs_hp s /\ qs_cipher s' = qs_cipher s /\ qs_pn s' = qs_pn s /\
+    qs_initial s' = qs_initial s /\ qs_version s' = qs_version s /\
+    qs_epoch_client s' = qs_epoch_client s /\ qs_epoch_server s' = qs_epoch_server s /\ qs_phase_client s' = qs_phase_client s /\ qs_phase_server s' = qs_phase_server s.
+Proof.
+  intros Hsrv Hty Hstr L3 Hl3 Lhv Lr Lsid Lf Lsu Lcm Hbf Hch msg.
+  set (body := hv ++ random ++ [len sid] ++ sid ++ to_be_total (len (f ++ others)) 2 ++ (f ++ others) ++ [len cms] ++ cms ++ rest) in *.
+  assert (Em : msg = [1] ++ l3 ++ body) by reflexivity.
+  assert (Lb : 0 < len body).
+  { unfold body. rewrite len_app, Lhv. match goal with |- 0 < 2 + len ?x => pose proof (len_nonneg x) end. lia. }
+  unfold handle_crypto_frame. rewrite Hsrv, Hty. cbn [qs_with qs_tls].
+  rewrite (update_session_first_client (qs_tls s) msg (qs_ids s) Hstr).
+  set (q0 := set_streams (qs_tls s) false [ {| cs_offset := len msg; cs_frames := []; cs_buffer := msg |}; cs0; cs0; cs0 ]).
+  destruct (quic_client_hello q0 l3 hv random sid f others cms rest L3 Hl3 Lhv Lr Lsid Lf Lsu Lcm) as (q1 & Hh & Hcs & Hcr1 & Hnd).
+  change ([1] ++ l3 ++ hv ++ random ++ [len sid] ++ sid ++ to_be_total (len (f ++ others)) 2 ++ (f ++ others) ++ [len cms] ++ cms ++ rest) with msg in Hh.
+  unfold q0. rewrite (walk_one_message_client (qs_tls s) msg body l3 Em L3 Hl3 Lb Hstr q1 Hh). cbn [negb].
+  set (qf := set_streams q1 false _).
+  assert (F1 : qt_new_data qf = true) by exact Hnd. assert (F2 : qt_client_random qf = Some random) by exact Hcr1. assert (F3 : qt_ciphersuite qf = Some f) by exact Hcs.
+  destruct (client_hello_streams q0 msg) as [Sv _]. fold q0 in Hh. rewrite Hh in Sv. cbn [fst] in Sv.
+  assert (F4 : qt_server qf = qt_server (qs_tls s)) by (unfold qf; cbn [set_streams qt_server]; rewrite Sv; reflexivity).
+  cbn [upd_tls qs_with qs_tls]. rewrite F1, F2, F3.
+  (* a suite that is none of the four: set_tls_decryptors leaves the session alone *)
+  assert (Hnone : forall sx, set_tls_decryptors C keylog sx random f = (sx, true)).
+  { intros sx. unfold set_tls_decryptors.
+    destruct f as [|a [|b [|c t]]]; try (unfold len in Lf; cbn [length] in Lf; lia).
+    inversion Hbf as [|? ? Ha Hbt]. inversion Hbt as [|? ? Hb _]. subst.
+    change (from_be [a; b]) with ((0 * 256 + a) * 256 + b).
+    assert (N1 : ((0 * 256 + a) * 256 + b =? 4865) = false).
+    { apply Z.eqb_neq. intros E. assert (a = 19 /\ b = 1) as [-> ->] by lia. discriminate Hch. }
+    assert (N2 : ((0 * 256 + a) * 256 + b =? 4866) = false).
+    { apply Z.eqb_neq. intros E. assert (a = 19 /\ b = 2) as [-> ->] by lia. discriminate Hch. }
+    assert (N3 : ((0 * 256 + a) * 256 + b =? 4867) = false).
+    { apply Z.eqb_neq. intros E. assert (a = 19 /\ b = 3) as [-> ->] by lia. discriminate Hch. }
+    assert (N4 : ((0 * 256 + a) * 256 + b =? 4868) = false).
+    { apply Z.eqb_neq. intros E. assert (a = 19 /\ b = 4) as [-> ->] by lia. discriminate Hch. }
+    rewrite N1, N2, N3, N4, !andb_false_r. reflexivity. }
+  rewrite Hnone. cbn [negb]. match goal with |- context [qt_new_data (qs_tls ?sx)] => change (qs_tls sx) with qf end. rewrite F1.
+  eexists. split; [reflexivity|].
+  cbn [upd_out upd_tls qs_with qs_cipher qs_handshake qs_app qs_hp qs_tls qs_output qs_pn qs_initial qs_version qs_epoch_client qs_epoch_server qs_phase_client qs_phase_server
+       qt_ciphersuite qt_client_random qt_new_data qt_server].
+  rewrite F2, F3, F4. repeat split; reflexivity.
+Qed.
+
 End Front.
